@@ -92,7 +92,15 @@ def replay_behaviour(rep, lst, oracle, beh, fname, n, state):
                 elif act == "step":
                     if not state["step_ok"]:
                         return True
-                    lst.step = probe_value(steps, arg, n)
+                    sv = probe_value(steps, arg, n)
+                    if 0 <= arg <= 4 * (n - 1) and arg % 4 in (1, 3):
+                        # steps are whole numbers: ask for one (between the two printed steps, on the same side of the middle)
+                        i_ = arg // 4
+                        lo_, hi_ = float(steps[i_]), float(steps[i_ + 1])
+                        cand = int(sv)
+                        if lo_ < cand < hi_ and cand != 0.5 * (lo_ + hi_) and (cand < 0.5 * (lo_ + hi_)) == (arg % 4 == 1):
+                            sv = cand
+                    lst.step = sv
                     ambiguous = (0 <= arg <= 4 * (n - 1) and arg % 4 == 2)
                 elif act == "history":
                     # history's options vary with the position in the behaviour (plain, full results only, dated)
